@@ -270,6 +270,82 @@ func c08FlateBomb(r *kit.Rand, size int, layers int) []byte {
 	return data
 }
 
+// c08LZWCodes packs a sequence of LZW codes MSB-first with the code width the
+// decoder expects at each point (EarlyChange 0 or 1), so that hostile code
+// sequences (table full without a clear code, repeated newest codes, codes
+// beyond the table) reach the decoder's table logic instead of failing at the
+// first width mismatch.
+func c08LZWCodes(r *kit.Rand, early int) []byte {
+	var out []byte
+	var acc uint32
+	nbits := 0
+	width := 9
+	next := 258 // next table entry to be created
+	emit := func(code int) {
+		acc = acc<<uint(width) | uint32(code)
+		nbits += width
+		for nbits >= 8 {
+			out = append(out, byte(acc>>uint(nbits-8)))
+			nbits -= 8
+		}
+	}
+	emit(256)
+	first := true
+	total := kit.Pick(r, []int{200, 3000, 4200, 6000, 9000})
+	style := r.Intn(4)
+	for i := 0; i < total; i++ {
+		var code int
+		switch {
+		case first:
+			code = r.Intn(256)
+		case style == 0: // mostly the newest code (KwKwK chains)
+			code = next - 1
+			if r.Chance(1, 8) {
+				code = r.Intn(256)
+			}
+		case style == 1:
+			code = r.Intn(next)
+			if code == 256 || code == 257 {
+				code = 65
+			}
+		case style == 2 && next >= 4094: // table full: hammer the top entries
+			code = kit.Pick(r, []int{4095, 4094, 4093, next - 1})
+		case style == 3 && r.Chance(1, 50):
+			code = next + r.Intn(3) // at or beyond the table
+		default:
+			code = r.Intn(min(next, 4096))
+			if code == 256 || code == 257 {
+				code = 66
+			}
+		}
+		emit(code)
+		if !first && next < 4096 {
+			next++
+		}
+		first = false
+		// width switches as the decoder does them
+		switch {
+		case next+early > 2047 && width < 12:
+			width = 12
+		case next+early > 1023 && width < 11:
+			width = 11
+		case next+early > 511 && width < 10:
+			width = 10
+		}
+		if r.Chance(1, 4000) {
+			emit(256)
+			width, next, first = 9, 258, true
+		}
+	}
+	if r.Bool() {
+		emit(257)
+	}
+	if nbits > 0 {
+		out = append(out, byte(acc<<uint(8-nbits)))
+	}
+	return out
+}
+
 type c08Case struct {
 	dict  pdf.Dict
 	body  []byte
@@ -427,6 +503,25 @@ func c08Gen(r *kit.Rand, seeds []c08Seed, quick bool) c08Case {
 			cs.body = b
 			cs.chain = []string{s.filter}
 		}
+	case k < 18 && r.Bool():
+		cs.class = "lzw-code-level"
+		early := r.Intn(2)
+		cs.dict["Filter"] = pdf.Name("LZWDecode")
+		cs.dict["DecodeParms"] = pdf.Dict{"EarlyChange": pdf.Integer(early)}
+		cs.body = c08LZWCodes(r, early)
+		cs.chain = []string{"LZWDecode"}
+	case k < 18:
+		cs.class = "bomb-behind-filter"
+		// a doubly deflated run expands far beyond the budget of the tiny raw stream
+		// before it reaches the last decoder
+		last := kit.Pick(r, []string{"JBIG2Decode", "DCTDecode", "CCITTFaxDecode", "RunLengthDecode", "ASCIIHexDecode", "ASCII85Decode", "LZWDecode"})
+		size := kit.Pick(r, []int{16 << 20, 64 << 20, 128 << 20})
+		if quick {
+			size = kit.Pick(r, []int{16 << 20, 96 << 20})
+		}
+		cs.dict["Filter"] = pdf.Array{pdf.Name("FlateDecode"), pdf.Name("FlateDecode"), pdf.Name(last)}
+		cs.body = c08FlateBomb(r, size, 2)
+		cs.chain = []string{"FlateDecode", "FlateDecode", last}
 	default:
 		cs.class = "compression-bomb"
 		size := kit.Pick(r, []int{1 << 20, 8 << 20, 40 << 20})
@@ -523,8 +618,11 @@ func c08Exec(c *kit.Case, mon *kit.Monitor, cs c08Case) {
 		c.Violationf("cpu/"+cs.class+"/"+filt, "%s\nCPU time %.2f s exceeds 10 s + 2 us x (input + output) = %.2f s", ctx, u.CPU, cpuBound)
 	}
 	memBound := uint64(4*kit.StreamBudgetModel(in) + 4*out + 16<<20)
-	if u.Alloc > memBound {
-		c.Violationf("alloc/"+cs.class+"/"+filt, "%s\nallocated %d bytes, bound 4 x budget(%d) + 4 x output + 16 MiB = %d", ctx, u.Alloc, in, memBound)
+	// TotalAlloc counts every byte ever allocated, garbage included (growing buffers are
+	// counted at each size): it is bounded more loosely than the memory held at one time
+	allocBound := uint64(8*kit.StreamBudgetModel(in) + 8*out + 64<<20)
+	if u.Alloc > allocBound {
+		c.Violationf("alloc/"+cs.class+"/"+filt, "%s\nallocated %d bytes in total, bound 8 x budget(%d) + 8 x output + 64 MiB = %d", ctx, u.Alloc, in, allocBound)
 	}
 	if u.PeakHeap > memBound {
 		c.Violationf("heap/"+cs.class+"/"+filt, "%s\nlive heap grew by %d bytes, bound %d", ctx, u.PeakHeap, memBound)
